@@ -11,23 +11,51 @@ from hexital.candlesticks.heikinashi import HeikinAshi
 from . import specs, wire
 
 
-class Diverged(Exception):
-    pass
+class Diverged(BaseException):
+    """a library call did not return within the watchdog budget (e.g. a non-terminating gap-fill loop).  Not an
+    `Exception`: the harness wraps library calls in `except Exception` (an exception is a result there), and the
+    watchdog has to pierce those."""
 
 
 def _alarm(signum, frame):
-    raise Diverged()
+    raise Diverged("no result within the watchdog budget")
+
+
+import multiprocessing as _mp
+
+DIVERGED = _mp.Value("i", 0)  # divergences seen so far, shared with the forked worker processes
 
 
 def guarded(fn, seconds=3.0):
-    """run fn() under a watchdog; a non-terminating loop is reported as Diverged"""
-    old = signal.signal(signal.SIGALRM, _alarm)
-    signal.setitimer(signal.ITIMER_REAL, seconds)
+    """run fn() under a SIGALRM watchdog; a non-terminating loop is reported as Diverged.  Nest-safe: an enclosing
+    watchdog keeps its deadline (the inner one never outlives it and re-arms it on the way out).  Once this process
+    (or a sibling worker) has seen divergences the budget of later calls shrinks (a divergence is already a violation; what follows only
+    has to finish): 1 → at most 5 s, 3 → at most 1 s."""
+    import time
+
+    seen = DIVERGED.value
+    if seen >= 3:
+        seconds = min(seconds, 1.0)
+    elif seen >= 1:
+        seconds = min(seconds, 5.0)
+    try:
+        old = signal.signal(signal.SIGALRM, _alarm)
+    except ValueError:  # not in the main thread: run unguarded
+        return fn()
+    outer, _ = signal.getitimer(signal.ITIMER_REAL)
+    t0 = time.monotonic()
+    signal.setitimer(signal.ITIMER_REAL, min(seconds, outer) if outer else seconds)
     try:
         return fn()
+    except Diverged:
+        with DIVERGED.get_lock():
+            DIVERGED.value += 1
+        raise
     finally:
         signal.setitimer(signal.ITIMER_REAL, 0)
         signal.signal(signal.SIGALRM, old)
+        if outer:
+            signal.setitimer(signal.ITIMER_REAL, max(0.001, outer - (time.monotonic() - t0)))
 
 
 def split_params(toks):
@@ -131,6 +159,7 @@ class ImplRunner:
         self.ind = None
         self.hex = None
         self.pending = []
+        self.dead = False
 
     def _hex_op(self, fn):
         h = self.hex
@@ -217,6 +246,7 @@ class ImplRunner:
             guarded(fn)
             return ["ok"]
         except Diverged:
+            self.dead = True  # the objects were interrupted in the middle of a mutation: nothing after this line of the case is meaningful
             return ["err diverges"]
         except Exception as e:  # noqa
             return [wire.enc_err(e)]
@@ -229,6 +259,8 @@ class ImplRunner:
         if op == "reset":
             self.reset()
             return ["reset"]
+        if self.dead:
+            return ["skipped-after-divergence"]
         if op == "arith":
             return [arith(rest)]
         if op == "mgr":
